@@ -461,6 +461,10 @@ func RunTreeModes(r *vh.Run, name string, t *chainx.Tree, sched [][]int, modes [
 	reorgs, failed, errs, nearTies := 0, 0, 0, 0
 	decls := c02.Declare(t, c02.NewIDs())
 	tainted := false
+	pruneAt, prunedNode := -1, false
+	if strings.HasSuffix(name, "/s1") {
+		pruneAt = len(sched) / 2
+	}
 	// on a probed node every third plain submission meets a store whose Flush fails once
 	// (Model/ChainFF.lean, op addff); when the failure was consumed the same batch is offered again
 	type item struct {
@@ -481,6 +485,24 @@ func RunTreeModes(r *vh.Run, name string, t *chainx.Tree, sched [][]int, modes [
 		it := queue[0]
 		queue = queue[1:]
 		batch, bi, mode := it.batch, it.bi, it.mode
+		if pruneAt >= 0 && bi == pruneAt && !it.noFail {
+			// the application prunes in the middle of the history (model op `prune`): later forks
+			// from below the pruned height must fail cleanly
+			pruneAt = -1
+			if h := nd.CM.Tip().Height; h >= 2 {
+				func() {
+					defer func() {
+						if rec := recover(); rec != nil {
+							c.Oracle("prune-panic", "PruneBlocks(%d) panicked: %v", h-1, rec)
+						}
+					}()
+					nd.CM.PruneBlocks(h - 1)
+				}()
+				c.Op(fmt.Sprintf("prune %d", h-1), Observe(t, nd, "ok"))
+				c.Tags = append(c.Tags, "pruned-in-the-middle")
+				prunedNode = true
+			}
+		}
 		before := Observe(t, nd, "x")
 		beforeState := encState(nd)
 		beforeTip, _ := t.Lookup(nd.CM.Tip().ID)
@@ -536,7 +558,7 @@ func RunTreeModes(r *vh.Run, name string, t *chainx.Tree, sched [][]int, modes [
 		if flushFailed && nd.CM.Tip() != t.Blocks[beforeTip].Index() {
 			c.Oracle("failed-submission-changed-chain", "the store's Flush failed during AddBlocks(%v) (result %s) and the tip moved from %v to %v", batch, res, t.Blocks[beforeTip].Index(), nd.CM.Tip())
 		}
-		if mode != "addv2" && !flushFailed && !(mode == "" && strings.HasPrefix(sb.String(), "addv2")) {
+		if mode != "addv2" && !flushFailed && !(prunedNode && res != "ok") && !(mode == "" && strings.HasPrefix(sb.String(), "addv2")) {
 			AuditAdopted(c, t, nd, res, batch, beforeTip)
 		}
 		if len(t.Blocks) <= 300 {
